@@ -209,11 +209,11 @@ theorem defineAll_reverse (rs : Ref.St) (fr : Nat) (fr0 : Ref.Frame) (hfr : rs.f
     | none => trivial
 
 /-- the relation does not see the order of the bindings inside a frame -/
-theorem Rel.withVars_congr {s : St} {rs : Ref.St} {fr : Nat} {fr0 : Ref.Frame} {va vb : List (String × Val)} {env : Nat}
-    (h : Rel s (withVars rs fr fr0 vb) env) (hfr : rs.frames[fr]? = some fr0)
-    (hl : ∀ y, va.lookup y = vb.lookup y) : Rel s (withVars rs fr fr0 va) env := by
+theorem RelCore.withVars_congr {s : St} {rs : Ref.St} {fr : Nat} {fr0 : Ref.Frame} {va vb : List (String × Val)} {env : Nat}
+    (h : RelCore s (withVars rs fr fr0 vb) env) (hfr : rs.frames[fr]? = some fr0)
+    (hl : ∀ y, va.lookup y = vb.lookup y) : RelCore s (withVars rs fr fr0 va) env := by
   have hlt := lt_of_getElem?_some hfr
-  refine ⟨?_, ?_, h.nofn, ?_, h.heap, h.trace, h.fnpar, h.fnclo⟩
+  refine ⟨?_, ?_, h.nofn, ?_, h.heap, h.trace⟩
   · have := h.len
     simp only [withVars, List.length_set] at this ⊢
     exact this
@@ -231,6 +231,11 @@ theorem Rel.withVars_congr {s : St} {rs : Ref.St} {fr : Nat} {fr0 : Ref.Frame} {
     have := Chain.set_vars hget va hc
     simp only [withVars, List.set_set] at this ⊢
     exact this
+
+theorem Rel.withVars_congr {s : St} {rs : Ref.St} {fr : Nat} {fr0 : Ref.Frame} {va vb : List (String × Val)} {env : Nat}
+    (h : Rel s (withVars rs fr fr0 vb) env) (hfr : rs.frames[fr]? = some fr0)
+    (hl : ∀ y, va.lookup y = vb.lookup y) : Rel s (withVars rs fr fr0 va) env :=
+  ⟨h.toRelCore.withVars_congr hfr hl, h.fnpar, h.fnclo⟩
 
 theorem FramesExt.withVars_congr {rs0 rs : Ref.St} {fr : Nat} {fr0 : Ref.Frame} {va vb : List (String × Val)}
     (h : FramesExt rs0 (withVars rs fr fr0 vb)) : FramesExt rs0 (withVars rs fr fr0 va) := by
